@@ -26,7 +26,8 @@ def emit_kind(kind, ir, opts=None):
     if kind in DOC_KINDS:
         return emit.docstring(ir, docstring_format=kind, word_wrap=o["ww"], emit_default_doc=o["edd"])
     if kind == "class":
-        return to_code(emit.class_(ir, class_name="ConfigClass", word_wrap=o["ww"], emit_default_doc=o["edd"]))
+        kw = {"emit_call": True} if o.get("call") else {}
+        return to_code(emit.class_(ir, class_name="ConfigClass", word_wrap=o["ww"], emit_default_doc=o["edd"], **kw))
     if kind in ("function", "method"):
         ft = o.get("ft") or ("static" if kind == "function" else "self")
         kw = {}
@@ -57,10 +58,11 @@ def parse_kind(kind, text, opts=None):
             return parse.docstring(text, emit_default_doc=opts["pedd"])
         return parse.docstring(text)
     node = ast.parse(text).body[0]
+    kw = {"infer_type": True} if (opts or {}).get("pinfer") else {}
     if kind == "class":
-        return parse.class_(node)
+        return parse.class_(node, **kw)
     if kind in ("function", "method"):
-        return parse.function(node)
+        return parse.function(node, **kw)
     if kind == "argparse":
         return parse.argparse_ast(node)
     raise ValueError(kind)
@@ -298,7 +300,7 @@ class RoundTrip(core.Check):
             return [site(False, dict(cf, field="emit"), fail="emit_raise", **core.exc_obs(e))], None, "emit-raise"
         nontrivial = text if (atoms or ret is not None or case["kwargs"]) else None
         try:
-            back = parse_kind(kind, text)
+            back = parse_kind(kind, text, opts)
         except Exception as e:
             return [site(False, dict(cf, field="parse"), fail="parse_raise", **core.exc_obs(e))], nontrivial, "parse-raise"
         sites = [site(True, dict(cf, field="parse"))]
